@@ -330,11 +330,68 @@ def check_setdup(case: t.Any, ctx: Ctx) -> None:
         ctx.fail('strict-kinds', f"equal-across-kinds:{type(r).__name__}", f"from_data({data!r}, {tn}) raised {type(r).__name__}: {str(r)[:150]}")
 
 
+# ---- an argument of another kind that *equals* the field's default --------------------------------------------------------------
+#
+# 0 == 0.0 == False == 0j and 1 == 1.0 == True == (1+0j): a value that compares equal to the default is still a value of its own
+# kind, and is converted (refused, or widened) like any other - in the constructor, in __replace__ and from data.
+
+DEFEQ = [  # (field type name, default, [(argument, expected: 'refuse' | exact result)])
+    ('int', 0, [(0.0, 'refuse'), (0j, 'refuse'), (-0.0, 'refuse'), (0, 0)]),
+    ('int', 1, [(1.0, 'refuse'), (1 + 0j, 'refuse'), (1, 1)]),
+    ('bool', False, [(0, 'refuse'), (0.0, 'refuse'), (0j, 'refuse'), (False, False)]),
+    ('bool', True, [(1, 'refuse'), (1.0, 'refuse'), (True, True)]),
+    ('float', 1.0, [(1 + 0j, 'refuse'), (1, 1.0), (1.0, 1.0)]),
+    ('float', 0.0, [(0j, 'refuse'), (0, 0.0)]),
+    ('complex', 1j, [(1j, 1j)]),
+    ('str', '', [(b'', 'refuse'), ('', '')]),
+    ('none', None, [(None, None)]),
+]
+
+
+def defeq_cases(shard: int, nshards: int) -> t.Iterator[t.Any]:
+    i = 0
+    for (di, (_, _, args)) in enumerate(DEFEQ):
+        for ai in range(len(args)):
+            for path in ('constructor', 'replace', 'from_data', 'positional'):
+                if i % nshards == shard:
+                    yield [di, ai, path]
+                i += 1
+
+
+_DEFEQ_CLS: t.Dict[int, t.Any] = {}
+
+
+def check_defeq(case: t.Any, ctx: Ctx) -> None:
+    import pane
+    (di, ai, path) = case
+    (tname, default, args) = DEFEQ[di]
+    (arg, want) = args[ai]
+    if di not in _DEFEQ_CLS:
+        T = {'int': int, 'bool': bool, 'float': float, 'complex': complex, 'str': str, 'none': type(None)}[tname]
+        _DEFEQ_CLS[di] = type('Config', (pane.PaneBase,), {'__annotations__': {'name': str, 'f': T}, 'name': 'n', 'f': default}, in_format=('struct', 'tuple'))
+    C = _DEFEQ_CLS[di]
+    ctx.label(f"default-equal:{path}")
+    ctx.nontrivial(want == 'refuse' or type(arg) is not type(want))
+    ctx.evaluated()
+    (k, got) = outcome({'constructor': lambda: C(f=arg), 'replace': lambda: C().__replace__(f=arg), 'from_data': lambda: C.from_data({'f': arg}),
+                        'positional': lambda: C.from_data(['n', arg])}[path])
+    cell = f"class Config(name: str = 'n', f: {tname} = {default!r}); {path} with f = {arg!r} ({type(arg).__name__})"
+    if k == 'exc':
+        ctx.fail('strict-kinds', f"default-equal:{type(got).__name__}", f"{cell}: raised {type(got).__name__}: {str(got)[:150]}")
+    elif want == 'refuse':
+        if k == 'ok':
+            ctx.fail('strict-kinds', f"default-equal:{type(arg).__name__}->{tname}", f"{cell}: accepted as {got!r}; it equals the default but is a {type(arg).__name__}")
+    elif k != 'ok' or type(got.f) is not type(want) or got.f != want:
+        ctx.fail('table-accepts', f"default-equal:{tname}", f"{cell}: gave {short(got, 100)}; wanted f = {want!r} ({type(want).__name__})")
+
+
 def suites(tier: str) -> t.List[Suite]:
     big = tier == 'thorough'
     return [
         Suite('matrix', check, cases=cases, exhaustive=True, budget_s=600, render=render),
         Suite('under-stock-handlers', check_handlers, cases=handler_cases, exhaustive=True, budget_s=300, render=render),
+        Suite('default-equal', check_defeq, cases=defeq_cases, exhaustive=True, budget_s=30,
+              render=lambda c: {'field': DEFEQ[c[0]][0], 'default': repr(DEFEQ[c[0]][1]), 'argument': repr(DEFEQ[c[0]][2][c[1]][0]), 'path': c[2]}),
         Suite('equal-across-kinds', check_setdup, cases=setdup_cases, exhaustive=True, budget_s=30, render=lambda c: {'target': c[0], 'value': repr(SETDUP_VALUES[c[1]])}),
         Suite('deep', check_deep, strategy=deep_cases, examples=20000 if big else 1500, budget_s=300 if big else 20, render=render_deep),
     ]
